@@ -21,6 +21,7 @@ import c07_probe as P
 import c07_ops as O
 
 DERIVE = ("outOfPlace", "view", "copy", "contiguous")
+CHAINS = ["zero_", "add_", "mul_", "apply_", "fill_", "set_", "__setitem__/index"]
 VERIF_DIR = __import__("pathlib").Path(__file__).resolve().parent.parent
 
 
@@ -130,12 +131,15 @@ class Case:
 
 def run_case(run: Run, spec, tmp):
     """returns (request line or None, expected states, meta) — model comparison is done in bulk later"""
-    kind, layout, hist, opname, variant, seed = spec
+    kind, layout, hist, opname, variant, seed = spec[:6]
+    chain = spec[6] if len(spec) > 6 else None
     rng = __import__("random").Random(seed)
     row = f"{opname}%{kind}" if (f"{opname}%{kind}" in run.classes or f"{opname}%{kind}" in run.deviations) else opname
     cls = run.deviations.get(row) or run.classes.get(row)          # class the code is modelled with
     doc = run.classes.get(row) or run.classes.get(opname)            # class the property / documentation assigns (oracle)
     case = {"kind": kind, "layout": layout, "history": hist, "op": opname, "row": row, "variant": variant, "seed": seed, "class": cls, "doc_class": doc}
+    if chain:
+        case["chain"] = chain
     cont = P.Container(kind, layout, rng, tmp=tmp)
     apply_history(cont, hist, rng)
     ctx = O.Ctx(cont, rng, variant)
@@ -255,7 +259,46 @@ def run_case(run: Run, spec, tmp):
                 struct.append(["unbind", n])
     steps = [["op", row, 0, ["w"] + writes, ["r"] + rl, ["s"] + struct]]
     real_states = [[P.canon_real_obj(world, n0, ob) for ob in objs]]
+    # ---- chained in-place operation on the result (a tensordict-level write through a view / into a copy)
+    chained = False
+    if chain and (cls in ("view", "copy", "contiguous") or (row in run.deviations and doc in ("view", "copy"))) and res_leaves:
+        from tensordict import TensorDictBase, is_tensorclass
+        tgt = result
+        if isinstance(tgt, (tuple, list)) and tgt:
+            tgt = tgt[0]
+        if isinstance(tgt, TensorDictBase) or is_tensorclass(tgt):
+            try:
+                with time_limit(20):
+                    if chain == "zero_":
+                        tgt.zero_()
+                    elif chain == "add_":
+                        tgt.add_(1.0)
+                    elif chain == "mul_":
+                        tgt.mul_(2.0)
+                    elif chain == "apply_":
+                        tgt.apply_(lambda x: x + 1)
+                    elif chain == "fill_":
+                        k = [k for k in tgt.keys(True, True) if tgt.get(k).dtype == P.DT][0]
+                        tgt.fill_(k, 3.0)
+                    elif chain == "set_":
+                        k = [k for k in tgt.keys(True, True) if tgt.get(k).dtype == P.DT][0]
+                        tgt.set_(k, torch.full(tgt.get(k).shape, 5.0, dtype=P.DT))
+                    elif chain == "__setitem__/index":
+                        tgt[...] = 7.0
+                chained = True
+            except Exception as e:
+                # e.g. in-place on an expanded result: torch refuses, possibly after having written some entries
+                # (partial effect of a raising op is not modelled): the case ends here
+                return None, None, {"case": case, "status": "chain-raised:" + err_class(e), "msg": str(e)[:120]}
+            if chained:
+                res_after = P.leaves_of(result)
+                if [n for n, _ in res_after] != [n for n, _ in res_leaves]:
+                    chained = False
+                else:
+                    steps.append(["op", chain, 3, ["w"] + [[n, world.tok.read(t)] for n, t in res_after], ["r"], ["s"]])
+                    real_states.append([P.canon_real_obj(world, n0, ob) for ob in objs])
     # ---- sentinel writes
+    poke_base = len(real_states) - 1
     pokes = []
     targets = []
     if cls in ("view", "copy", "contiguous"):
@@ -333,8 +376,8 @@ def run_case(run: Run, spec, tmp):
                 verdicts.append(f"copy op returned entry {n} sharing the source's storage")
         # sentinel evidence
         for i, (oi, n, toks) in enumerate(pokes):
-            stp = real_states[i + 1]
-            prev = real_states[i]
+            stp = real_states[poke_base + i + 1]
+            prev = real_states[poke_base + i]
             if oi == 3:
                 seen = set()
                 for leaf in stp[0] + stp[1]:
@@ -351,6 +394,19 @@ def run_case(run: Run, spec, tmp):
                         seen |= set(leaf[-1])
                 if toks & seen:
                     verdicts.append(f"sentinel written through source entry {n} is read through the copy")
+    if chained and ocls in ("view", "copy"):
+        st_op, st_ch = real_states[0], real_states[1]
+        def toks_of(state, ois):
+            out = set()
+            for oi in ois:
+                for leaf in state[oi]:
+                    if leaf[1] != "empty":
+                        out |= set(leaf[-1])
+            return out
+        if ocls == "view" and not (toks_of(st_ch, [3]) <= toks_of(st_ch, [0, 1])):
+            verdicts.append(f"{chain} on the result of a view op is not observed through the source")
+        if ocls == "copy" and [l for l in st_ch[0] + st_ch[1]] != [l for l in st_op[0] + st_op[1]]:
+            verdicts.append(f"{chain} on the result of a copy op changed tensors of the source")
     if ocls == "contiguous":
         srcmap = dict(self0)
         for n, t in res_leaves:
@@ -361,7 +417,7 @@ def run_case(run: Run, spec, tmp):
             if same != bool(s.is_contiguous()):
                 verdicts.append(f"contiguous(): entry {n} contiguous={s.is_contiguous()} but shares={same}")
     req = sx("c07.run", init, ["steps"] + steps)
-    meta = {"case": case, "status": "ok", "verdicts": verdicts, "n_pokes": len(pokes), "struct_ok": struct_ok,
+    meta = {"case": case, "status": "ok", "verdicts": verdicts, "n_pokes": len(pokes), "chained": chained, "deviation": row in run.deviations, "struct_ok": struct_ok,
             "n_self": len(self0), "n_res": len(res_leaves), "alias_ok": all(res_alias_ok.values()) if res_alias_ok else True}
     return req, real_states, meta
 
@@ -369,6 +425,78 @@ def run_case(run: Run, spec, tmp):
 def mask_states(states, meta, cls):
     """what is not compared: result windows of out-of-place ops that alias something outside the container"""
     return states
+
+
+
+def setstr_stream(run, drv):
+    """the write entry point: td.set(k, v) / td.set(k, v, inplace=True) / td.set_(k, v) on existing / missing keys,
+    locked / unlocked tensordicts, copy-compatible / incompatible values — outcome (bindings + reads, or error class)
+    vs Model `setStr`"""
+    from tensordict import TensorDict
+    rng = run.rng
+    reqs, exps, cases = [], [], []
+    n = 150 if run.tier == "quick" else 1500
+    for it in range(n):
+        cnt = P.Counter()
+        layout = rng.choice(["contiguous", "strided", "offset"])
+        td = TensorDict({"a": P.make_leaf((2, 3), layout, cnt), "b": P.make_leaf((2, 3, 2), layout, cnt)}, batch_size=[2, 3])
+        locked = rng.random() < 0.4
+        mode = rng.choice(["no", "yes", "best"])
+        key = rng.choice(["a", "b", "zz"])
+        good = rng.random() < 0.75
+        shape = tuple(td.get(key).shape) if key in td.keys() else (2, 3, 4)
+        if not good:
+            shape = shape + (3,) if len(shape) == 2 else shape[:-1] + (shape[-1] + 1,)
+        v = cnt.take(P._numel(shape)).reshape(shape) + 0.5
+        if locked:
+            td.lock_()
+        world = P.World()
+        objs0 = [P.leaves_of(td), [("v", v)]]
+        descs = [[(nm, world.desc(t), world.tok.read(t)) for nm, t in ob] for ob in objs0]
+        n0 = len(world.sids)
+        store = [[] for _ in range(n0)]
+        for ob in descs:
+            for nm, (sid, offs), reads in ob:
+                cells = store[sid]
+                for o, val in zip(offs, reads):
+                    if o >= len(cells):
+                        cells.extend([0] * (o + 1 - len(cells)))
+                    cells[o] = val
+        init = ["init", ["store"] + store, ["objs"] + [["obj"] + [[nm, sid, offs] for nm, (sid, offs), _ in ob] for ob in descs]]
+        vals = world.tok.read(v)
+        try:
+            with time_limit(10):
+                if mode == "no":
+                    td.set(key, v)
+                elif mode == "best":
+                    td.set(key, v, inplace=True)
+                else:
+                    td.set_(key, v)
+            impl = ["ok", [P.canon_real_obj(world, n0, P.leaves_of(td)), P.canon_real_obj(world, n0, [("v", v)])]]
+        except Exception as e:
+            impl = ["err", err_class(e)]
+        case = {"layout": layout, "locked": locked, "mode": mode, "key": key, "compatible_value": good}
+        run.case(("setstr", it, str(case)), nontrivial=True)
+        run.count("setstr.outcome", impl[0] if impl[0] == "ok" else "err:" + impl[1])
+        reqs.append(sx("c07.setstr", init, locked, mode, key, 1, "v", vals))
+        exps.append(impl)
+        cases.append(case)
+        # oracle: the documented in-place spellings never rebind, a locked tensordict never changes its bindings
+        if impl[0] == "ok":
+            now = {nm: t for nm, t in P.leaves_of(td)}
+            was = {nm: t for nm, t in objs0[0]}
+            if (mode == "yes" or (mode == "best" and key in was)) and now.get(key) is not was.get(key):
+                run.oracle_fail("setstr", case, "in-place set replaced the entry instead of writing into it", fingerprint="setstr_rebound")
+            elif locked and any(now.get(kk) is not was.get(kk) for kk in set(now) | set(was)):
+                run.oracle_fail("setstr", case, "bindings of a locked tensordict changed", fingerprint="setstr_locked")
+            else:
+                run.oracle_ok("setstr")
+        else:
+            run.oracle_ok("setstr")
+    for case, impl, a in zip(cases, exps, ask_chunked(drv, reqs)):
+        a = parse_sx(a)
+        model = ["ok", [P.canon_model_obj(ob) for ob in a[1][1:]]] if a[0] == "ok" else ["err", str(a[1])]
+        run.corr("set_str", case, impl, model)
 
 
 def main():
@@ -411,6 +539,9 @@ def main():
     for k in table:
         run.count("table.recipe", ("recipe" if k.split("%")[0] in O.R else "no-recipe") + ":" + table[k])
 
+    # 1b. the write entry point
+    setstr_stream(run, drv)
+
     # 2. cases
     rng = run.rng
     tmp = tempfile.mkdtemp(prefix="c07_", dir=str(BUILD) if BUILD.exists() or not BUILD.mkdir(parents=True, exist_ok=True) else str(BUILD))
@@ -421,14 +552,14 @@ def main():
     if cdir.exists():
         for f in sorted(cdir.glob("*.json")):
             for c in json.loads(f.read_text()).get("cases", []):
-                specs.append((c["kind"], c["layout"], list(c["history"]), c["op"], c["variant"], c["seed"]))
+                specs.append((c["kind"], c["layout"], list(c["history"]), c["op"], c["variant"], c["seed"], c.get("chain")))
     for op in sorted(probed):
         nrec = len(O.R[op])
         # the canonical configuration for every recipe of the operation
         for v in range(nrec):
             specs.append(("regular", "contiguous", [], op, v, rng.randrange(1 << 30)))
         nrand = {"inplace": 7, "view": 12, "copy": 14, "contiguous": 60, "outOfPlace": 3, "rebind": 5, "query": 1}.get(table[op], 1)
-        nrand *= 3 if quick else 12
+        nrand *= 2 if quick else 12
         for _ in range(nrand):
             kind = rng.choice(P.KINDS)
             layout = rng.choice(P.LAYOUTS)
@@ -436,7 +567,10 @@ def main():
             hist = [rng.choice(pool) for _ in range(rng.choice([0, 0, 1, 2, 3, 4]))]
             if table.get(f"{op}%{kind}") == "excluded":
                 continue
-            specs.append((kind, layout, hist, op, rng.randrange(64), rng.randrange(1 << 30)))
+            chain = rng.choice(CHAINS) if (table[op] in ("view", "copy", "contiguous") and rng.random() < 0.5) else None
+            if chain is None and f"{op}%{kind}" in run.deviations and rng.random() < 0.7:
+                chain = rng.choice(CHAINS)
+            specs.append((kind, layout, hist, op, rng.randrange(64), rng.randrange(1 << 30), chain))
     if not quick:
         # full grid kind x layout for the operations the property names
         named = [k for k in probed if table[k] in ("inplace", "view", "copy", "contiguous")]
@@ -454,13 +588,15 @@ def main():
             except Infra:
                 raise
             except TimeoutError:
-                req, states, meta = None, None, {"case": {"kind": spec[0], "layout": spec[1], "history": spec[2], "op": spec[3], "variant": spec[4], "seed": spec[5]}, "status": "timeout"}
+                req, states, meta = None, None, {"case": {"kind": spec[0], "layout": spec[1], "history": spec[2], "op": spec[3], "variant": spec[4], "seed": spec[5], "chain": spec[6] if len(spec) > 6 else None}, "status": "timeout"}
             cls = meta["case"].get("class") or table[spec[3]]
             run.count("case.status", meta["status"].split(":")[0])
             run.count("case.kind", spec[0])
             run.count("case.layout", spec[1])
             run.count("case.class", cls)
             run.count("case.history_len", len(spec[2]))
+            if meta.get("chained"):
+                run.count("case.chained", f"{cls}+{spec[6]}")
             if meta["status"] != "ok":
                 run.case(("case",) + tuple(map(str, spec)), nontrivial=False)
                 run.count("raised." + spec[0], spec[3])
@@ -486,6 +622,10 @@ def main():
         comparable = True
         if cls == "rebind" and not meta["struct_ok"]:
             comparable = False
+        if meta.get("deviation") and meta.get("chained"):
+            # a row of knownDeviations: the model transcribes the observed aliasing of the operation itself; what a chained
+            # tensordict-level write does afterwards is judged by the oracle only
+            model_states, real = model_states[:1], real[:1]
         if cls == "outOfPlace":
             # no aliasing commitment for the result: its windows are compared right after the operation only when the
             # observed aliasing is expressible (inside the container); after sentinel writes only pre-existing objects are compared
